@@ -1562,7 +1562,7 @@ def check_C14(ctx):
 
 def run_cache(ctx, runs, steps):
     """The page cache on its own: every call with the projection of the real state, validated against Cache.tla"""
-    tlc_check(ctx, "Cache", "MC_Cache.cfg", workers=6, timeout=1800)
+    tlc_check(ctx, "Cache", tiered(ctx, "MC_Cache.cfg", "MC_Cache_large.cfg"), workers=tiered(ctx, 6, 8), timeout=1800)
     tlc_expect_violation(ctx, "Cache", "MC_Cache_lose.cfg", "Transparent", workers=4)
     trace = os.path.join(ctx.work, "cache.ndjson")
     p = sh([bin_path("cache"), "--seed", str(ctx.seed), "--runs", str(runs), "--steps", str(steps), "--out", trace], timeout=1800)
